@@ -494,7 +494,7 @@ impl Gen {
                         let coef: Vec<f64> = (0..n).map(|_| *self.rng.pick(&[1.0, 1.0, -1.0, 2.0, 0.5, -2.0])).map(|c| if self.p.integer_only && c == 0.5 { 3.0 } else { c }).collect();
                         (CustomKind::Lin, args, coef)
                     }
-                    1 => (CustomKind::Prod2, vec![x, *self.rng.pick(&same)], vec![]),
+                    1 => (if self.rng.chance(1, 3) { CustomKind::Prod2Crate } else { CustomKind::Prod2 }, vec![x, *self.rng.pick(&same)], vec![]),
                     _ => (CustomKind::NestedSq, vec![x], vec![]),
                 };
                 let mut args = args;
@@ -787,6 +787,18 @@ impl Gen {
                         Some(d) => d.clone(),
                         None => return vec![],
                     };
+                    // sometimes one target row broadcast against the whole batch
+                    let od = if od.len() >= 2 && od[0] > 1 && self.rng.chance(15, 100) {
+                        if self.rng.chance(1, 2) {
+                            od[1..].to_vec()
+                        } else {
+                            let mut d = od.clone();
+                            d[0] = 1;
+                            d
+                        }
+                    } else {
+                        od
+                    };
                     let n = numel(&od);
                     let vals = (0..n).map(|_| self.dyadic(0, 4, 4.0)).collect();
                     return vec![Ev::Bwd { dims: od, vals }];
@@ -824,7 +836,7 @@ impl Gen {
     /// properties name are reached in every batch rather than by luck.
     fn scenarist(&mut self, _sim: &Sim) -> Vec<Ev> {
         let mut v = Vec::new();
-        match self.rng.weighted(&[20, 20, 15, 25, 20]) {
+        match self.rng.weighted(&[18, 18, 14, 22, 18, 10]) {
             0 => {
                 // a view taken while the array was untracked; later the array is trained and updated
                 let n = 2 + self.rng.below(5);
@@ -911,6 +923,32 @@ impl Gen {
                 }
                 let seed = self.seed_for(n);
                 v.push(Ev::Pass { root: cur, seed, via_clone: false });
+            }
+            5 => {
+                // wide fan-out: one array consumed by very many operations of one graph
+                let n = 1 + self.rng.below(2);
+                let fan = if self.rng.chance(30, 100) { 250 + self.rng.below(60) } else { 8 + self.rng.below(40) };
+                let x = self.fresh_slot();
+                let vals = self.leaf_vals(n);
+                v.push(Ev::Leaf { dst: x, dims: vec![n], vals, mode: LeafMode::Tracked });
+                let root = if self.rng.chance(1, 2) {
+                    // one n-ary user operation whose operands are all the same array
+                    let r = self.fresh_slot();
+                    let coef: Vec<f64> = (0..fan).map(|i| if i % 3 == 0 { -1.0 } else { 1.0 }).collect();
+                    v.push(Ev::Build { dst: r, op: Op::Custom { kind: CustomKind::Lin, coef, script: vec![] }, args: vec![x; fan] });
+                    r
+                } else {
+                    // an accumulation loop: acc = acc + x, `fan` times
+                    let acc = self.fresh_slot();
+                    v.push(Ev::Build { dst: acc, op: Op::Add, args: vec![x, x] });
+                    for i in 0..fan {
+                        let op = if i % 2 == 0 { Op::Add } else { Op::Sub };
+                        v.push(Ev::Build { dst: acc, op, args: vec![acc, x] });
+                    }
+                    acc
+                };
+                let seed = self.seed_for(n);
+                v.push(Ev::Pass { root, seed, via_clone: false });
             }
             _ => {
                 // a ladder of diamonds made of user operations with permuted operands
